@@ -100,6 +100,12 @@ def main():
             rc, out = sh("./check %s %s" % (p, tier), cwd=VERIF, env=env, timeout=7200)
             sigs = sorted(set(l.split("VFSIG[")[1].split("]")[0] for l in out.splitlines() if "VFSIG[" in l))
             viol = [l for l in out.splitlines() if l.startswith("VIOLATION")]
+            # (the failing unit's output tail may be cut before its VFSIG line: the replay file name carries the signature too)
+            import re
+            for l in viol:
+                m = re.search(r"replay=\S*/C\d\d-(.+)-\d+\.json", l)
+                if m:
+                    sigs = sorted(set(sigs) | {m.group(1)})
             checks[p] = {"tier": tier, "exit": rc, "signatures": sigs, "violation_lines": len(viol), "wall_s": round(time.time() - t0, 1)}
             print("CHECK", name, p, tier, "rc=%d" % rc, sigs, flush=True)
         rec["checks"] = checks
